@@ -708,6 +708,14 @@ class s_int(int, metaclass=_SIMeta):
 
     def __new__(cls, x=0, *a):
         if isinstance(x, SymFloat):
+            if x.concrete() is None and x.k == FIN:
+                # truncation of a symbolic value: fork over the (small) integer it can be
+                if bool(x < 0.0):
+                    raise core.EngineError("int() of a negative symbolic value is not modelled")
+                for k in range(0, 65):
+                    if bool(x < float(k + 1)):
+                        return k
+                raise core.EngineError("int() of a symbolic value above 64 is not modelled")
             return int(x)
         if isinstance(x, _np.ndarray) and x.dtype == object and x.size == 1:
             return int(_f(x.reshape(-1)[0]))
